@@ -161,7 +161,7 @@ func judge(res *fk.Result) error {
 		}
 		switch {
 		case res.FirstFault != nil:
-			if !errors.Is(r.Err, res.FirstFault) {
+			if r.Err != res.FirstFault {
 				return vk.Violf("wrong-error", "%s: reducer returned %v, but the failure was %v", desc(), r.Err, res.FirstFault)
 			}
 		case c.Fault.Kind == "ctx" && c.Fault.P == 0:
@@ -214,10 +214,10 @@ func judge(res *fk.Result) error {
 			}
 			return vk.Violf("spurious-error", "%s: terminal error %v although no terminal fault was injected", desc(), res.Final)
 		}
-		if !errors.Is(res.Final, res.E) {
+		if res.Final != res.E {
 			return vk.Violf("wrong-error", "%s: failed with %v instead of the injected error E", desc(), res.Final)
 		}
-		if fk.IsBackground(c.Comb) && c.Fault.Kind == "final" && !errors.Is(res.AfterFinal, res.E) {
+		if fk.IsBackground(c.Comb) && c.Fault.Kind == "final" && res.AfterFinal != res.E {
 			return vk.Violf("error-not-sticky", "%s: after reporting E the next call returned %v", desc(), res.AfterFinal)
 		}
 	}
